@@ -499,3 +499,79 @@ def all_digraphs(n):
 def role_assignments(n, origin_roles=("none", "ideal", "ramp"), dest_roles=("none", "dest")):
     for combo in itertools.product(itertools.product(origin_roles, dest_roles), repeat=n):
         yield combo
+
+
+def all_valid_small(nmax, rng, kinds_full=True):
+    """Every valid (topology, role assignment) on 1..nmax labelled nodes, self-loops
+    included; element parameters drawn at random (pairwise different)."""
+    g = NetGen(rng)
+    for n in range(1, nmax + 1):
+        for edges in all_digraphs(n):
+            if not edges:
+                continue
+            indeg = [0] * n
+            outdeg = [0] * n
+            for (i, j) in edges:
+                outdeg[i] += 1
+                indeg[j] += 1
+            opts = []
+            ok = True
+            for v in range(n):
+                if indeg[v] == 0 and outdeg[v] == 0:
+                    ok = False
+                    break
+                if indeg[v] == 0:
+                    if outdeg[v] != 1:
+                        ok = False
+                        break
+                    opts.append([("o", k) for k in (("ideal", "main", "ramp", "simple") if kinds_full else ("ideal", "ramp"))])
+                elif outdeg[v] == 0:
+                    if indeg[v] != 1:
+                        ok = False
+                        break
+                    opts.append([("d", k) for k in ("free", "cong")])
+                elif outdeg[v] == 1:
+                    opts.append([("-", None), ("o", "ramp"), ("o", "simple")])
+                else:
+                    opts.append([("-", None)])
+            if not ok:
+                continue
+            for combo in itertools.product(*opts):
+                used = set()
+
+                def distinct(lo, hi, nd=3):
+                    while True:
+                        x = round(rng.uniform(lo, hi), nd)
+                        if x not in used:
+                            used.add(x)
+                            return x
+
+                links = []
+                for i, (u, w) in enumerate(edges):
+                    N = rng.choice((1, 2, 3))
+                    vsl = None
+                    alpha = None
+                    if rng.random() < 0.25:
+                        vsl = sorted(rng.sample(range(N), rng.randint(0, N)))
+                        alpha = distinct(0.0, 0.3)
+                    links.append({
+                        "id": f"L{i}", "name": f"L{i}", "up": f"n{u}", "down": f"n{w}", "N": N,
+                        "lam": rng.choice((1, 2, 3, 4)), "L": distinct(0.4, 1.6),
+                        "rho_max": distinct(160.0, 200.0, 2), "rho_crit": distinct(25.0, 40.0, 2),
+                        "v_free": distinct(90.0, 130.0, 2), "a": distinct(1.2, 3.2),
+                        "beta": distinct(0.1, 2.5), "vsl": vsl, "alpha": alpha})
+                desc = {"nodes": [f"n{v}" for v in range(n)], "links": links, "origins": [], "dests": []}
+                for v, (role, kind) in enumerate(combo):
+                    if role == "o":
+                        eq, C = None, None
+                        if kind == "ramp":
+                            eq, C = rng.choice(("in", "out")), distinct(1200.0, 4500.0, 1)
+                        elif kind == "simple":
+                            eq, C = rng.choice(("limited", "unlimited")), distinct(1200.0, 4500.0, 1)
+                        i = len(desc["origins"])
+                        desc["origins"].append({"id": f"O{i}", "name": f"O{i}", "node": f"n{v}", "kind": kind, "C": C, "eq": eq})
+                    elif role == "d":
+                        i = len(desc["dests"])
+                        desc["dests"].append({"id": f"D{i}", "name": f"D{i}", "node": f"n{v}", "kind": kind})
+                assert is_valid_desc(desc), desc
+                yield desc
